@@ -9,8 +9,8 @@ CHECKS['C33'] = dict(
     variants=['asan'],
     targets=['build/bin/c33'],
     binaries=['build/bin/c33'],
-    quick=dict(runs=2400, workers=16, chunk=10, wall_cap=600),
-    thorough=dict(runs=40000, workers=16, chunk=10, wall_cap=3000),
+    quick=dict(runs=3200, workers=16, chunk=10, wall_cap=600),
+    thorough=dict(runs=60000, workers=16, chunk=10, wall_cap=3000),
     run_timeout=120,
     shrink_ints=['n', 'limit'],
     expected_probes=['iterator_stepped_after_cache_cleared', 'gen_crosses_segment_boundary',
@@ -36,8 +36,8 @@ CHECKS['C25'] = dict(
     variants=['asan'],
     targets=['build/bin/c25'],
     binaries=['build/bin/c25'],
-    quick=dict(runs=4000, workers=16, chunk=25, wall_cap=600),
-    thorough=dict(runs=80000, workers=16, chunk=25, wall_cap=3000),
+    quick=dict(runs=12000, workers=16, chunk=25, wall_cap=600),
+    thorough=dict(runs=300000, workers=16, chunk=25, wall_cap=3000),
     run_timeout=60,
     shrink_ints=['i', 'j', 'v', 'rows', 'cols'],
     shrink_keys=['ops', 'entries', 'exprs'],
@@ -65,8 +65,8 @@ CHECKS['C13'] = dict(
     variants=['asan'],
     targets=['build/bin/c13'],
     binaries=['build/bin/c13'],
-    quick=dict(runs=3000, workers=16, chunk=20, wall_cap=600),
-    thorough=dict(runs=60000, workers=16, chunk=20, wall_cap=3000),
+    quick=dict(runs=5000, workers=16, chunk=20, wall_cap=600),
+    thorough=dict(runs=120000, workers=16, chunk=20, wall_cap=3000),
     run_timeout=60,
     shrink_keys=['ops', 'outputs', 'pool'],
     expected_probes=['reinit', 'reinit_cse_on_to_off', 'reinit_cse_off_to_on', 'reinit_fewer_outputs',
@@ -91,8 +91,8 @@ CHECKS['C18'] = dict(
     variants=['asan'],
     targets=['build/bin/c18'],
     binaries=['build/bin/c18'],
-    quick=dict(runs=3000, workers=16, chunk=20, wall_cap=600),
-    thorough=dict(runs=80000, workers=16, chunk=20, wall_cap=3000),
+    quick=dict(runs=12000, workers=16, chunk=20, wall_cap=600),
+    thorough=dict(runs=300000, workers=16, chunk=20, wall_cap=3000),
     run_timeout=90,
     exec_timeout=90,
     shrink_keys=['ops', 'faults'],
@@ -118,8 +118,8 @@ CHECKS['C19'] = dict(
     variants=['asan'],
     targets=['build/bin/c19'],
     binaries=['build/bin/c19'],
-    quick=dict(runs=4000, workers=16, chunk=20, wall_cap=600),
-    thorough=dict(runs=80000, workers=16, chunk=20, wall_cap=3000),
+    quick=dict(runs=16000, workers=16, chunk=20, wall_cap=600),
+    thorough=dict(runs=400000, workers=16, chunk=20, wall_cap=3000),
     run_timeout=60,
     shrink_keys=['ops', 'pool', 'elems'],
     expected_probes=['address_reused_while_output_archive_alive', 'roundtrip_string_api', 'roundtrip_archive_api',
@@ -147,8 +147,8 @@ CHECKS['C20'] = dict(
     variants=['asan'],
     targets=['build/bin/c20'],
     binaries=['build/bin/c20'],
-    quick=dict(runs=4000, workers=16, chunk=20, wall_cap=600),
-    thorough=dict(runs=100000, workers=16, chunk=20, wall_cap=3000),
+    quick=dict(runs=8000, workers=16, chunk=20, wall_cap=600),
+    thorough=dict(runs=300000, workers=16, chunk=20, wall_cap=3000),
     run_timeout=60,
     stop_after_violations=60,
     max_reported=40,
@@ -177,8 +177,8 @@ CHECKS['C23'] = dict(
     variants=['asan'],
     targets=['build/bin/c23'],
     binaries=['build/bin/c23'],
-    quick=dict(runs=400, workers=16, chunk=5, wall_cap=600),
-    thorough=dict(runs=8000, workers=16, chunk=5, wall_cap=3000),
+    quick=dict(runs=640, workers=16, chunk=5, wall_cap=600),
+    thorough=dict(runs=24000, workers=16, chunk=5, wall_cap=3000),
     run_timeout=300,
     exec_timeout=300,
     shrink_keys=['ops', 'seeds'],
@@ -198,4 +198,36 @@ CHECKS['C23'] = dict(
     assumptions=['only the factorisation clause of C23 is decided here; the arithmetic clauses (add, mul, div, gcd, ...) are pure functions of their inputs and are exercised only as far as factorisation uses them',
                  'p <= 199, degree <= 12 (p = 2: <= 8, because gf_edf_zassenhaus loops 2^(deg-1) times there)', 'constant or otherwise degenerate rand() streams are not injected: retry loops legitimately need fresh randomness',
                  'sampling, not proof'],
+)
+
+CHECKS['C32'] = dict(
+    variants=['asan'],
+    targets=['build/bin/c32'],
+    binaries=['build/bin/c32'],
+    quick=dict(runs=800, workers=16, chunk=10, wall_cap=600),
+    thorough=dict(runs=24000, workers=16, chunk=10, wall_cap=3000),
+    run_timeout=300,
+    exec_timeout=300,
+    shrink_keys=['ops', 'seeds'],
+    shrink_ints=['n', 'm', 'a'],
+    expected_probes=['random_numbers_drawn', 'seed_list_replayed', 'same_call_under_other_sieve_state',
+                     'sieve_clear', 'sieve_set_size', 'sieve_set_clear', 'sieve_iterator_stepped',
+                     'sieve_generate_primes', 'pollard_gave_up'],
+    rule=('one run = a seeded interleaving (8-58 steps) of calls of the randomised or sieve-dependent number-theory '
+          'functions (factor, factor_trial_division, factor_lehman_method, factor_pollard_pm1/rho, prime_factors, '
+          'prime_factor_multiplicities, primepi, primorial, totient, carmichael, multiplicative_order, '
+          'primitive_root(_list), mobius, mertens, is_quad_residue, is_nth_residue, nthroot_mod(_list), '
+          'powermod(_list)) on bounded arguments (n <= 1e6 and 40-bit semiprimes; moduli <= 4000: primes, prime '
+          'powers, 2p^k, composites), each replayed under 2-6 rand() seed lists, with perturbations of the global '
+          'sieve between them (clear, set_clear, set_sieve_size in {1,2,3,4,8,32}, a held iterator stepped, '
+          'generate_primes) and with earlier calls repeated under the new sieve state. Oracle: brute force from the '
+          'definitions (roots compared as residues mod m), "may fail, never lie" for the Pollard methods, identical '
+          'results across seed lists and sieve states. Non-trivial = >=4 judged calls and >=1 sieve perturbation; '
+          'distinct = distinct event-log hash.'),
+    state_measure='not tracked',
+    components=dict(real=REAL_COMMON + ['ntheory.cpp, ntheory_funcs.cpp, prime_sieve.cpp', 'GMP random state'],
+                    stub=['std::rand() (link-time --wrap=rand)', 'order of sieve perturbations and calls (seeded plan)', 'brute-force oracles in the harness']),
+    assumptions=['only the clauses of C32 that meet a seam (randomness, global sieve) are decided; gcd/lcm/gcd_ext/mod/quotient families/mod_inverse/crt/fibonacci/lucas/binomial/factorial/divides/bernoulli/harmonic/legendre/jacobi/kronecker/quadratic_residues/polygonal numbers/perfect powers/nextprime/probab_prime_p are pure and NOT covered',
+                 'which non-trivial divisor a factoring method returns, which root nthroot_mod/powermod return, and which primitive root of a composite modulus is returned are unspecified: only validity is required',
+                 'factor_lehman_method finding nothing for a composite is counted (probe) but not judged', 'sampling, not proof'],
 )
